@@ -262,7 +262,7 @@ def run(res, prop, tier, replay=None):
             hs = [json.load(f)["history"]]
         hs = [[tuple(x) for x in h] for h in hs]
     else:
-        hs = histories(seed, 400 if thorough else 60)
+        hs = histories(seed, 3000 if thorough else 60)
         if prop == "C03":
             hs = [h for h in hs if any(op[0] == "edit_g" and ("conf" in op[1] or "exp" in op[1] or "rr" in op[1] or "both" in op[1]) for op in h)]
     with concurrent.futures.ThreadPoolExecutor(max_workers=max(2, core.NCPU - 4)) as ex:
@@ -286,7 +286,7 @@ def run(res, prop, tier, replay=None):
         res.notes["binding_selftest"] = st
         if st and not st["rejected"]:
             raise core.ToolError("binding self-test failed")
-    n = 1 if replay else 4
+    n = 1 if replay else (12 if thorough else 4)
     parts = [traces[i::n] for i in range(n)]
     with concurrent.futures.ThreadPoolExecutor(max_workers=n) as ex:
         results = list(ex.map(lambda a: validate(res, a[0], a[1], prop), enumerate(parts)))
